@@ -110,6 +110,28 @@ def writes_to(n):
     return (ref_of(ip[0]) if ip else ref_of(w[1])), ip
 
 
+def flag_guard(fn, g, x, what):
+    """a missing guard is only reported when no branch that dominates x is decided by something this rule cannot read: a
+    bool flag variable or a project helper returning bool may carry the test"""
+    px = g.pos_deep(x)
+    for bid, blk in g.blocks.items():
+        els = g.elements(bid)
+        if len(blk.get("succ", [])) != 2 or not els or not isinstance(els[-1], int) or blk.get("term") is None:
+            continue
+        c = fn.byid(els[-1])
+        if c is None or not g.dominates((bid, len(els) - 1), px):
+            continue
+        c0 = strip_casts(c)
+        while c0 is not None and (c0["k"] == "ParenExpr" or (c0["k"] == "UnaryOperator" and c0.get("op") == "!")):
+            c0 = strip_casts(kids(c0)[0])
+        if c0 is None:
+            continue
+        is_flag = c0["k"] == "DeclRefExpr" and (c0.get("ty") or "").replace("const ", "") == "bool" and c0["ref"].get("kind") == "local"
+        is_helper = "callee" in c0 and c0["k"] in ("CallExpr", "CXXMemberCallExpr") and fn.tu.by_did.get(c0["callee"].get("did")) is not None
+        if is_flag or is_helper:
+            raise dtable.Undecidable("%s: %s may be established by %s, which this rule cannot read" % (fn.loc, what, dtable.describe(c0)))
+
+
 def check_index_guards(ck, fn, tag):
     """INDEX-GUARD: every begin_seqs[X].first[E] is reached only over branch edges that establish the needed bound
     (E < seqlen[X], or E' > 0 for E = E' - 1), as canonical linear inequalities, with no write to the index in between
@@ -158,14 +180,15 @@ def check_index_guards(ck, fn, tag):
             if ip and not any(match.same_expr(ip[1], q[1]) for y in ir.walk(E) for q in [match.index_parts(y)] if q and ref_of(q[0]) == d):
                 return None         # another element of the array
             return "kill"
-        safe = mustfact.MustFact(fn, g, lambda c, t, need=need: linear.implies(L.atom(c, t), need), effect)
+        safe = mustfact.MustFact(fn, g, lambda c, t, need=need: any(linear.implies(a_, need) for a_ in L.implied(c, t)), effect)
         if safe.before(x) is not True:
+            flag_guard(fn, g, x, "the bound of %s" % dtable.describe(x))
             ck.violation("INDEX-GUARD", fn.qname, "%s:%s" % (tag, dtable.describe(x)),
                          "%s is read on a path without a test that the index is inside the sequence (needs %s >= 0)"
                          % (dtable.describe(x), linear.show(need)), fn.nloc(x))
             bad += 1
             continue
-        exact = mustfact.MustFact(fn, g, lambda c, t, need=need: linear.same(L.atom(c, t), need), effect)
+        exact = mustfact.MustFact(fn, g, lambda c, t, need=need: any(linear.same(a_, need) for a_ in L.implied(c, t)), effect)
         if exact.before(x) is not True:
             ck.violation("GUARD-EXACT", fn.qname, "%s:%s" % (tag, dtable.describe(x)),
                          "%s is only reached under a test that is stronger than `the element exists` (%s >= 0): an existing candidate is skipped"
@@ -203,9 +226,10 @@ def check_index_guards(ck, fn, tag):
             d2, ip2 = writes_to(n)
             return "kill" if d2 is not None and d2 in names and n is not z and not ip2 else None
         n_lb += 1
-        sf = mustfact.MustFact(fn, g, lambda c, t: linear.implies(L.atom(c, t), need), effect2)
-        ex = mustfact.MustFact(fn, g, lambda c, t: linear.same(L.atom(c, t), need), effect2)
+        sf = mustfact.MustFact(fn, g, lambda c, t: any(linear.implies(a_, need) for a_ in L.implied(c, t)), effect2)
+        ex = mustfact.MustFact(fn, g, lambda c, t: any(linear.same(a_, need) for a_ in L.implied(c, t)), effect2)
         if sf.before(z) is not True:
+            flag_guard(fn, g, z, "the bound of %s" % dtable.describe(z)[:40])
             ck.violation("LEFT-BORDER-BOUND", fn.qname, "%s:%s" % (tag, dtable.describe(z)[:40]),
                          "the left border is moved by %s without a test that the sequence is that long (needs %s >= 0): the border leaves the sequence"
                          % (dtable.describe(K), linear.show(need)), fn.nloc(z))
